@@ -21,7 +21,7 @@ RULE = (
     "(screen hash, replacement kind, model, scorer, n_chunks, batch); non-trivial = >=1 masked row and >=1 observed row"
 )
 ASSUMPTIONS = ["observed values exactly 0 or 1 are outside the interaction model's transform (logit gives +-inf) and are not generated for it", "both members of a pair use the same seed and the same global numpy seed so that only masked values differ"]
-REQUIRED = {"refusals_of_tiny_negative_values": {"quick": 150, "thorough": 2000}, "pairs_with_non_default_model_switches": {"quick": 80, "thorough": 1000}, "refusals_checked_for_side_effects": {"quick": 200, "thorough": 2500}, "training_sets_with_values_above_one": {"quick": 40, "thorough": 500}, "two_batch_histories": {"quick": 100, "thorough": 1200}, "cli_pairs": {"quick": 6, "thorough": 40}, "cli_replacement_nan": {"quick": 1, "thorough": 6}, "pairs_compared": {"quick": 250, "thorough": 3000}, "artefacts_compared": {"quick": 1200, "thorough": 15000}, "training_set_checks": {"quick": 250, "thorough": 3000}, "refusals_checked": {"quick": 2000, "thorough": 25000}}
+REQUIRED = {"own_parameter_blocks_compared": {"quick": 250, "thorough": 3000}, "single_observation_changes": {"quick": 300, "thorough": 4000}, "single_observation_changes_of_a_cell_lines_only_experiment": {"quick": 30, "thorough": 400}, "refusals_of_tiny_negative_values": {"quick": 150, "thorough": 2000}, "pairs_with_non_default_model_switches": {"quick": 80, "thorough": 1000}, "refusals_checked_for_side_effects": {"quick": 200, "thorough": 2500}, "training_sets_with_values_above_one": {"quick": 40, "thorough": 500}, "two_batch_histories": {"quick": 100, "thorough": 1200}, "cli_pairs": {"quick": 6, "thorough": 40}, "cli_replacement_nan": {"quick": 1, "thorough": 6}, "pairs_compared": {"quick": 250, "thorough": 3000}, "artefacts_compared": {"quick": 1200, "thorough": 15000}, "training_set_checks": {"quick": 250, "thorough": 3000}, "refusals_checked": {"quick": 2000, "thorough": 25000}}
 N_PAIRS = {"quick": 640, "thorough": 6400}
 
 
@@ -302,6 +302,8 @@ def run_shard(rec, tier, seed, shard, nshards):
         # given the same numeric sampler state and the same generator
         if pi % 2 == 0:
             two_batches(rec, rng, MODELS[mname], mname, A, w)
+        if pi % 2 == 1:
+            every_observation_counts(rec, rng, MODELS[mname], mname, kw, cfg, w)
 
         # ---------------- refusals
         for m2 in MODELS:
@@ -392,6 +394,85 @@ def run_shard(rec, tier, seed, shard, nshards):
 
     # every replacement kind goes through the command-line entry points in every run (kind by shard and position)
     cli_pairs(rec, rng, shard, n=6 if tier == "thorough" else 1, seed=seed)
+
+
+def every_observation_counts(rec, rng, cls, mname, kw, cfg, w):
+    """'Each observed experiment exactly once' seen from outside: when ONE observed experiment's result changes a lot,
+    the posterior samples drawn with the same seed change. Rows tried: the first one handed to the model, the last, a
+    random one, and (SparseDrugCombo) a row that is its cell line's only observed experiment, placed first."""
+    from batchie.data import Screen, ExperimentSpace
+    from batchie.core import ThetaHolder
+    from batchie import sampling
+
+    kw = {k: (v.copy() if isinstance(v, np.ndarray) else v) for k, v in kw.items()}
+    mask = kw["observation_mask"]
+    obs_rows = np.flatnonzero(mask)
+    solo = None
+    if mname == "SparseDrugCombo" and rng.random() < 0.6:
+        # a cell line with one observed experiment only (its other wells are still to be run)
+        solo = int(obs_rows[0]) if rng.random() < 0.6 else int(rng.choice(obs_rows))
+        names = kw["sample_names"].astype(object)
+        names[solo] = "solo"
+        un = np.flatnonzero(~mask)
+        if len(un) and rng.random() < 0.5:
+            names[int(rng.choice(un))] = "solo"
+        kw["sample_names"] = names.astype(str)
+
+    def train(kw_):
+        scr = Screen(**kw_)
+        out = []
+        # (a) two samples after a short burn-in; (b) the state after the very first sweep; (c) after the second sweep
+        for n_thetas, n_burnin in ((2, 2), (1, 0), (1, 1)):
+            m = cls(experiment_space=ExperimentSpace.from_screen(scr), n_embedding_dimensions=cfg["D"], **cfg.get("model_kwargs", {}))
+            m.add_observations(scr.subset_observed())
+            out.append(sampling.sample(m, ThetaHolder(n_thetas=n_thetas), seed=cfg["seed"], n_chains=1, chain_index=0, n_burnin=n_burnin, thin=1))
+        return theta_bytes(out[0]), out[1].thetas[0], scr, out[2].thetas[0]
+
+    try:
+        base = train(kw)
+    except Exception as e:
+        rec.did_not_return("sensitivity-base-" + mname, e)
+        return
+    tn = kw["treatment_names"]
+    is_combo = np.array([(tn[i] != kw["control_treatment_name"]).all() and (kw["treatment_doses"][i] > 0).all() for i in range(len(tn))])
+    cand = [int(r) for r in obs_rows if mname == "SparseDrugCombo" or is_combo[r]]
+    if not cand:
+        return
+    rows = {cand[0], cand[-1], int(rng.choice(cand))}
+    if solo is not None:
+        rows.add(solo)
+    for r in sorted(rows):
+        o = kw["observations"].copy()
+        o[r] = 0.08 if min(max(float(o[r]), 0.0), 1.0) > 0.5 else 0.92
+        try:
+            other = train(dict(kw, observations=o))
+        except Exception as e:
+            rec.did_not_return("sensitivity-" + mname, e)
+            continue
+        rec.count("oracle_evals")
+        rec.count("single_observation_changes")
+        if r == solo:
+            rec.count("single_observation_changes_of_a_cell_lines_only_experiment")
+        # The block with a constant design: the row's own sample effect is conditioned on
+        # it in the very first sweep (SparseDrugCombo; the intercept is the mean residual, so a block that covers
+        # EVERY training row sees no change and is left out). The interaction model starts from zero embeddings, the
+        # sample embedding is conditioned on the row from the second sweep on.
+        th0, th1, scr = base[1], other[1], base[2]
+        sub_ids = np.asarray(scr.sample_ids)[obs_rows]
+        sub_t = np.asarray(scr.treatment_ids)[obs_rows]
+        c = int(scr.sample_ids[r])
+        dd = [int(x) for x in scr.treatment_ids[r]]
+        blocks = []
+        if mname == "SparseDrugCombo":
+            if int((sub_ids == c).sum()) < len(obs_rows):
+                blocks.append(("W0[its sample] after the first sweep", th0.W0[c], th1.W0[c]))
+        elif is_combo[r]:
+            blocks.append(("W[its sample] after the second sweep", base[3].W[c], other[3].W[c]))
+        deaf = [name for name, a_, b_ in blocks if np.array_equal(np.asarray(a_), np.asarray(b_))]
+        rec.count("own_parameter_blocks_compared", len(blocks))
+        rec.check(not deaf, "C04/%s/observed-experiment-has-no-influence" % mname, lambda: "%s: changing the result of observed experiment %d (sample %r, %r, row %d of those handed to the model) from %r to %r leaves %s bit-identical with the same seed: these parameters were not conditioned on the experiment" % (mname, r, str(kw["sample_names"][r]), tn[r].tolist(), int(np.searchsorted(obs_rows, r)) + 1, float(kw["observations"][r]), float(o[r]), ", ".join(deaf)), dict(w, row=r, samples=kw["sample_names"].tolist()[:12]))
+        base_b, other = base[0], other[0]
+        rec.check(other != base_b, "C04/%s/observed-experiment-has-no-influence" % mname, lambda: "%s: changing the result of observed experiment %d (sample %r, %r, the %s row handed to the model) from %r to %r leaves every posterior sample bit-identical: the experiment is not part of what the model was trained on" % (mname, r, str(kw["sample_names"][r]), tn[r].tolist(), "first" if r == int(obs_rows[0]) else "%d-th" % (int(np.searchsorted(obs_rows, r)) + 1), float(kw["observations"][r]), float(o[r])), dict(w, row=r, samples=kw["sample_names"].tolist()[:12]))
 
 
 def numeric_state(obj):
